@@ -307,7 +307,7 @@ func (be *buildEnv) ModulePackageSourceAddr(ctx context.Context, pkgAddr regaddr
 		return resp, fmt.Errorf("harness world has no registry package %s", pkgAddr)
 	}
 	for _, v := range be.w.Registry[i].Versions {
-		if mustVersion(v.V).Same(version) {
+		if mustVersion(v.V).String() == version.String() { // exact: build metadata distinguishes listed versions
 			src, err := sourceaddrs.ParseRemoteSource(be.w.Remotes[v.Source.Pkg].SourceString(v.Source.Sub))
 			if err != nil {
 				return resp, err
